@@ -17,7 +17,14 @@ import (
 	"github.com/gorilla/websocket"
 )
 
-func init() { Modes["c12"] = c12Main }
+func init() {
+	Modes["c12"] = c12Main
+	Modes["c12list"] = func([]byte) { // the forced schedules, for the orchestrator
+		for _, s := range c12Scheds {
+			Emit(map[string]string{"Pair": s.Pair, "Name": s.Name})
+		}
+	}
+}
 
 type c12Case struct {
 	ID    string   `json:"id"`
@@ -487,7 +494,8 @@ type c12Sched struct {
 	First      string // A | B | X (X = the backend acts)
 	After      string // event the second actor waits for ("" = none)
 	DelayUs    int
-	Pending    int // messages the backend sends before the pair starts
+	Spin       bool // B is repeated back to back until it is no longer answered 400 (or A is done)
+	Pending    int  // messages the backend sends before the pair starts
 	K          int // messages the backend sends immediately before closing (X)
 }
 
@@ -495,22 +503,22 @@ type c12Sched struct {
 var c12Scheds = []c12Sched{
 	// A = data, B = close
 	{Pair: "data-close", Name: "close-completes-while-data-at-loaded", First: "A", After: "A@shim.data.loaded",
-		Rules: []shimRule{{Role: "A", Hook: "shim.data.loaded", Until: "B.done"}, {Role: "int", Hook: "conn.writer.recv", Until: "A.done"}}},
+		Rules: []shimRule{{Role: "A", Hook: "shim.data.loaded", Until: "B.done&int@conn.writer.recv"}, {Role: "int", Hook: "conn.writer.recv", Until: "A.done"}}},
 	{Pair: "data-close", Name: "close-completes-while-data-at-send", First: "A", After: "A@conn.send.enter",
-		Rules: []shimRule{{Role: "A", Hook: "conn.send.enter", Until: "B.done"}, {Role: "int", Hook: "conn.writer.recv", Until: "A.done"}}},
+		Rules: []shimRule{{Role: "A", Hook: "conn.send.enter", Until: "B.done&int@conn.writer.recv"}, {Role: "int", Hook: "conn.writer.recv", Until: "A.done"}}},
 	{Pair: "data-close", Name: "data-completes-while-close-at-loaded", First: "B", After: "B@shim.close.loaded",
 		Rules: []shimRule{{Role: "B", Hook: "shim.close.loaded", Until: "A.done"}}},
 	{Pair: "data-close", Name: "enter-together-data-waits", First: "A", After: "A@conn.send.enter",
 		Rules: []shimRule{{Role: "A", Hook: "conn.send.enter", Until: "B@conn.close.enter"}}},
 	{Pair: "data-close", Name: "enter-together-close-waits", First: "A", After: "A@shim.data.loaded",
 		Rules: []shimRule{{Role: "A", Hook: "shim.data.loaded", Until: "B@conn.close.enter"}, {Role: "B", Hook: "conn.close.enter", Until: "A@conn.send.enter"}}},
-	{Pair: "data-close", Name: "data-queued-writer-held-until-close-done", First: "A", After: "A.done",
+	{Pair: "data-close", Name: "data-queued-writer-held-until-close-done", First: "A", After: "A.done&int@conn.writer.recv",
 		Rules: []shimRule{{Role: "int", Hook: "conn.writer.recv", Until: "B.done"}}},
 	// A = close, B = close
 	{Pair: "close-close", Name: "second-completes-while-first-at-loaded", First: "A", After: "A@shim.close.loaded",
 		Rules: []shimRule{{Role: "A", Hook: "shim.close.loaded", Until: "B.done"}}},
 	{Pair: "close-close", Name: "second-completes-while-first-at-loaded-writer-held", First: "A", After: "A@shim.close.loaded",
-		Rules: []shimRule{{Role: "A", Hook: "shim.close.loaded", Until: "B.done"}, {Role: "int", Hook: "conn.writer.recv", Until: "A.done"}}},
+		Rules: []shimRule{{Role: "A", Hook: "shim.close.loaded", Until: "B.done&int@conn.writer.recv"}, {Role: "int", Hook: "conn.writer.recv", Until: "A.done"}}},
 	{Pair: "close-close", Name: "both-loaded-first-enters-with-second", First: "A", After: "A@shim.close.loaded",
 		Rules: []shimRule{{Role: "A", Hook: "shim.close.loaded", Until: "B@shim.close.loaded"}, {Role: "A", Hook: "conn.close.enter", Until: "B@conn.close.enter"}}},
 	{Pair: "close-close", Name: "both-loaded-second-enters-with-first", First: "A", After: "A@shim.close.loaded",
@@ -544,8 +552,9 @@ var c12Scheds = []c12Sched{
 	{Pair: "poll-bclose", Name: "backend-sends-12-and-closes-then-poll", First: "X", After: "bclosed", K: 12},
 	// A = open (backend greets with 2 messages), B = poll naming the id the open will be given
 	{Pair: "open-poll", Name: "poll-completes-then-open", First: "B", After: "B.done"},
-	{Pair: "open-poll", Name: "poll-at-loaded-until-open-returns", First: "A",
+	{Pair: "open-poll", Name: "polls-back-to-back-first-hit-held-at-loaded-until-open-returns", First: "A", Spin: true,
 		Rules: []shimRule{{Role: "B", Hook: "shim.poll.loaded", Until: "A.done"}}},
+	{Pair: "open-poll", Name: "polls-back-to-back-unforced", First: "A", Spin: true},
 	{Pair: "open-poll", Name: "concurrent-unforced", First: "A"},
 	{Pair: "open-poll", Name: "open-completes-then-poll", First: "A", After: "A.done"},
 }
@@ -634,7 +643,11 @@ func (x *c12Exec) forced() {
 		case "A":
 			pa = shimStart(x.h, sched, "A", reqA)
 		case "B":
-			pb = shimStart(x.h, sched, "B", reqB)
+			if sc.Spin {
+				pb = x.spin(sched, reqB)
+			} else {
+				pb = shimStart(x.h, sched, "B", reqB)
+			}
 		case "X":
 			doX()
 		}
@@ -649,7 +662,9 @@ func (x *c12Exec) forced() {
 	start(sc.First)
 	gate := true
 	if sc.After != "" {
-		gate = sched.await(sc.After, 2*time.Second)
+		for _, e := range strings.Split(sc.After, "&") {
+			gate = sched.await(e, 2*time.Second) && gate
+		}
 	}
 	if sc.DelayUs > 0 {
 		time.Sleep(time.Duration(sc.DelayUs) * time.Microsecond)
@@ -754,6 +769,29 @@ func (x *c12Exec) forced() {
 	}
 	x.b.forget(s.token)
 	x.probe("schedule " + sc.Pair + "/" + sc.Name)
+}
+
+// spin repeats a poll back to back while it is answered 400 (session not
+// yet known) and A has not returned; every answer is judged, the last one is
+// handed on. This is how a poll is landed in the few microseconds between
+// the open handler storing the session and returning.
+func (x *c12Exec) spin(sched *shimSched, proto *http.Request) *shimPending {
+	p := &shimPending{done: make(chan shimAnswer, 1), t0: time.Now()}
+	body := shimIDBody("1")
+	go func() {
+		for n := 0; ; n++ {
+			last := sched.happened("A.done")
+			a := shimStart(x.h, sched, "B", shimReq("poll", nil, body)).wait(c12Bound("poll"))
+			if !a.Answered || a.Status != 400 || last || n > 20000 {
+				x.mu.Lock()
+				x.res.Calls += n
+				x.mu.Unlock()
+				p.done <- a
+				return
+			}
+		}
+	}()
+	return p
 }
 
 // ------------------------------------------------------------ stress
@@ -863,7 +901,7 @@ func (x *c12Exec) stress() {
 			}
 		}
 		if !closedSeen {
-			for n := 0; n < 60 && s.state != c12Closed; n++ {
+			for n := 0; n < 80 && s.state != c12Closed; n++ {
 				a := x.call("poll", "poll(session under stress after backend close)", "", nil, shimIDBody(s.id))
 				obs = append(obs, c12Obs{"poll", s.id, true, a})
 				if !a.Answered || a.Status == 400 {
@@ -871,7 +909,7 @@ func (x *c12Exec) stress() {
 				}
 			}
 			if s.state != c12Closed {
-				x.violate("C12:backend-close-not-reported", "stress: the backend closed but 60 polls later none has answered 400")
+				x.violate("C12:backend-close-not-reported", "stress: the backend closed but 80 polls later none has answered 400")
 			}
 		}
 	}
